@@ -131,7 +131,6 @@ def opensGo (cmds : List Cmd) : Option (Bool × Bytes) → List Nat → List Ev 
         (match pend with
           | some (true, p) => body.head? == some 90 && cmds.any (fun c => c.messid == p && c.delnum == d)
           | _ => true) && opensGo cmds none plan rest
-    | .overread => true
     | .hello _ => opensGo cmds pend plan rest
 
 def opensOK (cmds : List Cmd) (plan : List Nat) (evs : List Ev) : Bool := opensGo cmds none plan evs
@@ -153,22 +152,23 @@ end spawn
 section send
 open Nq.SendReport
 
-/-- the (file, position) pairs that were marked done: `open_write p; lseek pos; write "D"` -/
+/-- the (file, position) pairs that were marked done (`open_write p; lseek pos; write …`) -/
 def marksOf : List Ev → List (Bytes × Nat)
-  | .openWrite p :: .seek pos :: .writeD _ :: r => (p, pos) :: marksOf r
-  | _ :: r => marksOf r
   | [] => []
+  | .mark p pos _ :: r => (p, pos) :: marksOf r
+  | _ :: r => marksOf r
 
 def bouncesOf : List Ev → List Bytes
   | [] => []
   | .openAppend p :: r => p :: bouncesOf r
   | _ :: r => bouncesOf r
 
-/-- every byte written into a recipient file -/
-def writesOf : List Ev → List Bytes
-  | [] => []
-  | .writeD b :: r => b :: writesOf r
-  | _ :: r => writesOf r
+/-- every write into a recipient file is the single byte 'D', and there is no seek/write outside a mark -/
+def writesOK : List Ev → Bool
+  | [] => true
+  | .mark _ _ b :: r => b == [68] && writesOK r
+  | .stray :: _ => false
+  | _ :: r => writesOK r
 
 /-- the deliveries in flight: (recipient file, position of the recipient's record) -/
 def inflight (c : Nat) (jobs : List Job) (slots : List (Option Slot)) : List (Bytes × Nat) :=
@@ -191,8 +191,53 @@ by writing the single byte 'D' at its position; bounces only for in-flight deliv
 into a recipient file that is not such a mark -/
 def sendOK (c : Nat) (jobs : List Job) (slots : List (Option Slot)) (evs : List Ev) : Bool :=
   consume (marksOf evs) (inflight c jobs slots) &&
-  consume (bouncesOf evs) (inflightBounce jobs slots) &&
-  (writesOf evs).length == (marksOf evs).length && (writesOf evs).all (· == [68])
+  consume (bouncesOf evs) (inflightBounce jobs slots) && writesOK evs
+
+/-! #### reference reader: which records a report stream asks to mark
+
+An independent, minimal restatement of the report protocol: bytes accumulate (at most REPORTMAX are
+kept); a NUL that is not the first byte ends a report; its first byte names a slot; if that slot is
+in use the slot is freed, and the record is to be marked iff the second byte is `K`, `D`, or `Z`
+for a message that has exceeded its queue lifetime. -/
+
+structure RefSt where
+  rev : Bytes := []
+  n : Nat := 0
+  slots : List (Option Slot) := []
+
+def refStep (c : Nat) (jobs : List Job) (st : RefSt) (ch : Byte) : RefSt × List (Bytes × Nat) :=
+  let st := if st.n < Nq.Gen.REPORTMAX then { st with rev := ch :: st.rev, n := st.n + 1 } else st
+  if ch = 0 ∧ st.n > 1 then
+    let dl := st.rev.reverse
+    let d := (dl.headD 0).toNat
+    match st.slots.getD d none with
+    | none => ({ st with rev := [], n := 0 }, [])
+    | some sl =>
+      let jb := jobs.getD sl.j ⟨0, 0, 0, false, false, 0, 0⟩
+      let l := dl.getD 1 0
+      ({ rev := [], n := 0, slots := st.slots.set d none },
+       if l = 75 ∨ l = 68 ∨ (l = 90 ∧ jb.dying) then [(Clean.fmtqfn (chanaddr c) jb.id true, sl.mpos)] else [])
+  else (st, [])
+
+def refRun (c : Nat) (jobs : List Job) : RefSt → Bytes → List (Bytes × Nat)
+  | _, [] => []
+  | st, ch :: rest => (refStep c jobs st ch).2 ++ refRun c jobs (refStep c jobs st ch).1 rest
+
+def refMarks (c : Nat) (jobs : List Job) (slots : List (Option Slot)) (stream : Bytes) : List (Bytes × Nat) :=
+  refRun c jobs { slots := slots } stream
+
+/-- the files `markdone` tried to open, in order -/
+def attemptsOf : List Ev → List Bytes
+  | [] => []
+  | .mark p _ _ :: r => p :: attemptsOf r
+  | .openWriteFail p :: r => p :: attemptsOf r
+  | _ :: r => attemptsOf r
+
+/-- the marks are exactly those the stream asks for: same files in the same order (an open_write
+that fails loses its mark), each at the position the stream's slot says -/
+def sendStrict (c : Nat) (jobs : List Job) (slots : List (Option Slot)) (stream : Bytes) (evs : List Ev) : Bool :=
+  attemptsOf evs == (refMarks c jobs slots stream).map (·.1) &&
+  (marksOf evs).isSublist (refMarks c jobs slots stream)
 
 end send
 
